@@ -565,6 +565,103 @@ theorem hash_eq_spec_inner_partial (lk rk : List (Row → Val)) (nL nR : Nat) (L
   exact hk l hl r hr
 
 
+/-! ### right outer hash join -/
+
+theorem flatMap_ite_singleton {α β} (c : α → Bool) (f : α → β) (R : List α) :
+    R.flatMap (fun r => if c r then [f r] else []) = (R.filter c).map f := by
+  induction R with
+  | nil => rfl
+  | cons a as ih =>
+    simp only [List.flatMap_cons, List.filter_cons]
+    cases c a <;> simp [ih]
+
+/-- what the probe phase emits, as a bag: the structural inner join plus (for right/full joins) the
+right rows whose key is not in the table, padded. -/
+theorem probe_out_perm (pr : Bool) (lk rk : List (Row → Val)) (nL : Nat) (L R : List Row) :
+    ((hjProbe pr rk nL R (hmBuild lk L)).2).Perm
+      (L.flatMap (fun l => (R.filter (fun r => keyOf lk l == keyOf rk r)).map (l ++ ·)) ++
+        (if pr then (R.filter (fun r => (L.filter (fun l => keyOf lk l == keyOf rk r)).isEmpty)).map (nulls nL ++ ·) else [])) := by
+  rw [probe_out]
+  have h : (R.flatMap (fun r =>
+      match rowsOf (keyOf rk r) (hmBuild lk L) with
+      | some rows => rows.map (· ++ r)
+      | none => if pr then [nulls nL ++ r] else [])) =
+      R.flatMap (fun r => (L.filter (fun l => keyOf lk l == keyOf rk r)).map (fun l => l ++ r) ++
+        (if (pr && (L.filter (fun l => keyOf lk l == keyOf rk r)).isEmpty) then [nulls nL ++ r] else [])) := by
+    apply flatMap_congr'
+    intro r _
+    rw [rowsOf_build]
+    cases hf : (L.filter (fun l => keyOf lk l == keyOf rk r)).isEmpty
+    · simp
+    · have : L.filter (fun l => keyOf lk l == keyOf rk r) = [] := List.isEmpty_iff.mp hf
+      cases pr <;> simp [this]
+  refine (Perm.of_eq h).trans ?_
+  refine (flatMap_append_perm _ _ R).trans ?_
+  refine Perm.append (cross_swap_perm2 (fun l r => l ++ r) (fun l r => keyOf lk l == keyOf rk r) L R) ?_
+  rw [flatMap_ite_singleton]
+  cases pr
+  · simp
+  · simp
+
+theorem filter_isEmpty_eq_not_any {α} (p : α → Bool) (L : List α) : (L.filter p).isEmpty = !L.any p := by
+  induction L with
+  | nil => rfl
+  | cons a as ih =>
+    simp only [List.filter_cons, List.any_cons]
+    cases p a
+    · simpa using ih
+    · simp
+
+theorem matchedBy_keys (lk rk : List (Row → Val)) (nL : Nat) (L R : List Row)
+    (hlen : ∀ l ∈ L, l.length = nL) (hk : KeysComparable lk rk L R) (r : Row) (hr : r ∈ R) :
+    (L.filter (fun l => keyOf lk l == keyOf rk r)).isEmpty =
+      !matchedBy (equiOn nL lk rk (fun _ => some true)) L r := by
+  unfold matchedBy
+  have : L.any (fun l => holds (equiOn nL lk rk (fun _ => some true) (l ++ r))) =
+      L.any (fun l => keyOf lk l == keyOf rk r) := by
+    apply any_congr'
+    intro l hl
+    rw [equiOn_split nL lk rk l r (hlen l hl)]
+    exact (hk l hl r hr).symm
+  rw [this, filter_isEmpty_eq_not_any]
+
+theorem structural_inner_eq_spec (lk rk : List (Row → Val)) (nL : Nat) (L R : List Row)
+    (hlen : ∀ l ∈ L, l.length = nL) (hk : KeysComparable lk rk L R) :
+    L.flatMap (fun l => (R.filter (fun r => keyOf lk l == keyOf rk r)).map (l ++ ·)) =
+      innerJoin (equiOn nL lk rk (fun _ => some true)) L R := by
+  unfold innerJoin matchesOf
+  apply flatMap_congr'
+  intro l hl
+  congr 1
+  apply List.filter_congr
+  intro r hr
+  rw [equiOn_split nL lk rk l r (hlen l hl)]
+  exact hk l hl r hr
+
+theorem filter_congr_mem {α} (p q : α → Bool) (L : List α) (h : ∀ a ∈ L, p a = q a) : L.filter p = L.filter q :=
+  List.filter_congr h
+
+/-- RIGHT OUTER hash join = spec under KeysComparable. -/
+theorem hash_eq_spec_right_outer_partial (lk rk : List (Row → Val)) (nL nR : Nat) (Ls Rs : List Chunk)
+    (hlen : ∀ l ∈ flat Ls, l.length = nL)
+    (hk : KeysComparable lk rk (flat Ls) (flat Rs)) :
+    (flat (hashJoin .rightOuter lk rk nL nR Ls Rs)).Perm
+      (joinRel .rightOuter (equiOn nL lk rk (fun _ => some true)) nL nR (flat Ls) (flat Rs)) := by
+  unfold hashJoin
+  simp only [show (JoinType.rightOuter == JoinType.rightOuter || JoinType.rightOuter == JoinType.fullOuter) = true from rfl,
+    show (JoinType.rightOuter == JoinType.leftOuter || JoinType.rightOuter == JoinType.fullOuter) = false from rfl,
+    Bool.false_eq_true, if_false, List.append_nil]
+  rw [flat_emit]
+  refine (probe_out_perm true lk rk nL (flat Ls) (flat Rs)).trans (Perm.of_eq ?_)
+  unfold joinRel rightJoin rightUnmatched
+  rw [structural_inner_eq_spec lk rk nL _ _ hlen hk]
+  simp only [if_true]
+  congr 2
+  apply List.filter_congr
+  intro r hr
+  rw [matchedBy_keys lk rk nL _ _ hlen hk r hr]
+
+
 /-! ### nested-loop left outer join: the bitmap pass -/
 
 theorem flat_rechunk (k : Nat) (Xs : List Chunk) : flat (rechunk k Xs) = flat Xs := by
